@@ -164,7 +164,10 @@ def compare(case, r, m):
     for s in STAGES:
         if s in impl and impl[s] != m.get(s):
             e2e.append((s, impl[s], m.get(s)))
-    if m.get('sc_ok') == '0':
+    # a skipped self-check is admissible with surrogate escapes (the model's sc_admissible) and when the candidate does not
+    # compile at all (size limit of the regex crate, fix F15) — the latter is measured by the hook's own compile attempt,
+    # not taken from the control flow under test
+    if m.get('sc_ok') == '0' and not any(s_ == 'selfcheck_impossible' for s_, _ in r.get('trace', [])):
         loc.append(('selfcheck', 'self-check outcome %s' % selfcheck_of(case, r.get('trace', [])), 'not admissible for this configuration (Pipeline.sc_admissible)'))
     for s in LOCAL:
         k = "L:" + s
